@@ -247,6 +247,19 @@ func genCorruptions(r *core.Rand, e *kmodel.Engine) []*corruption {
 				}})
 		}
 	}
+	// the whole bucket of the (nullable) unique index over nick is gone: every holder of a nick is missing from it
+	{
+		var needles [][]string
+		for _, id := range emps {
+			if v, _ := m.Ents[kmodel.Emps][id].V["nick"].(string); v != "" {
+				needles = append(needles, []string{"nick", v, id})
+			}
+		}
+		if len(needles) > 0 {
+			add(&corruption{Class: "unique-index-bucket-missing", Desc: fmt.Sprintf("delete the emps.nick index bucket (%d holders)", len(needles)), Needles: needles,
+				apply: func(tx *bbolt.Tx) error { return bpath(tx, "stores", "indexes", "emps").DeleteBucket([]byte("nick")) }})
+		}
+	}
 	// index-level corruptions not tied to one entity
 	// several adjacent dangling entries in one bucket (fix mode deletes through the cursor it iterates with)
 	nAdj := 1 + r.Intn(4)
@@ -415,7 +428,7 @@ func init() {
 		ID:    "C09",
 		Level: "exploration",
 		Rule: "consistent states reached through the API (random histories over schema K) must produce zero reports in check-only mode (read-only and writable transaction) and in fix mode; then a committed raw-write transaction injects a random subset (1-6) of " +
-			"corruptions from 23 classes (unique index missing / dangling / wrong-target / stale entry; set index missing entry / missing value key / dangling / non-holder entry / empty bucket; fk missing back-reference (one key, or the whole bucket absent) / dangling / non-matching back-reference, dangling reference nullable or not; " +
+			"corruptions from 24 classes (unique index missing / dangling / wrong-target / stale entry / the whole index bucket absent; set index missing entry / missing value key / dangling / non-holder entry / empty bucket; fk missing back-reference (one key, or the whole bucket absent) / dangling / non-matching back-reference, dangling reference nullable or not; " +
 			"links one-sided either side / dangling; duplicate unique values; null in a non-nullable unique field, fk-index field and fk-constraint field in three stored spellings). Oracle: every injected inconsistency is covered by a report naming its value and id(s), in View and Update check-only runs, which leave the whole-file dump unchanged and do not panic or fail; " +
 			"one fix pass then leaves only the predicted unfixable reports on re-check and (when none is unfixable) a structural-monitor-clean database equal to the model. Every fifth case runs the fix pass inside the very transaction that damaged the indexes (cursors over buckets already written to in the transaction); dangling links, dangling index entries and dangling back-references come in runs of one to four neighbours, also next to a one-sided link of the same entity (whose repair, made from the other store, writes to the bucket the dangling links are then removed from). Soundness is also checked on a model-free schema: one parent with two sibling child stores, the second extended with a NON-nullable unique index, six ids so that runs of neighbours without data in it occur; after every operation whose raw scan finds the indexes mirroring the entities the check-only run (both transaction kinds) must report nothing and change nothing. non-trivial = distinct corruption-class subsets of size >= 2",
 		Assumptions: []string{"report matching is by mention of the index/field name, value and ids (wording not judged); extra reports on a corrupted database are not judged", "ref-counted link collections are not part of CheckIntegrity (not injected)"},
@@ -429,7 +442,7 @@ func init() {
 		Promises: func(core.Tier) map[string][]string {
 			return map[string][]string{"class": {"unique-missing", "unique-wrong-target", "unique-stale-value", "unique-dangling-entry", "set-missing-entry", "set-missing-value-key", "set-extra-entry-dangling",
 				"set-extra-entry-existing", "set-empty-value-bucket", "fk-missing-backref", "fk-extra-backref-dangling", "fk-extra-backref-nonmatching", "fk-dangling-dept", "fk-dangling-boss",
-				"link-one-sided-emp-side-removed", "link-one-sided-dept-side-removed", "link-dangling", "duplicate-unique-value", "null-in-non-nullable-unique", "null-in-non-nullable-fk-index", "null-in-non-nullable-fk-constraint", "fk-missing-backref-bucket"}}
+				"link-one-sided-emp-side-removed", "link-one-sided-dept-side-removed", "link-dangling", "duplicate-unique-value", "null-in-non-nullable-unique", "null-in-non-nullable-fk-index", "null-in-non-nullable-fk-constraint", "fk-missing-backref-bucket", "unique-index-bucket-missing"}}
 		},
 		MinCounters: func(core.Tier) map[string]int64 {
 			return map[string]int64{"consistent_states_checked": 300, "corrupted_states": 300, "fix_converged_clean": 100, "fix_runs_inside_the_damaging_transaction": 50, "sibling_consistent_states_checked": 500, "extended_store_checked_over_a_run_of_parent_only_neighbours": 50}
